@@ -441,6 +441,7 @@ func (c *CqlClientConnection) processIncomingFrame(incoming *frame.Frame) (abort
 		c.channelsLock.RLock()
 		select {
 		case c.events <- incoming:
+			verifPoint("conn.event", 0, 0)
 			log.Debug().Msgf("%v: incoming event frame successfully delivered: %v", c, incoming)
 		default:
 			log.Error().Msgf("%v: events queue is full, discarding event frame: %v", c, incoming)
@@ -536,6 +537,7 @@ func (c *CqlClientConnection) Send(f *frame.Frame) (InFlightRequest, error) {
 		defer c.channelsLock.RUnlock()
 		select {
 		case c.outgoing <- f:
+			verifPoint("conn.enqueue", int64(f.Header.StreamId), 0)
 			log.Debug().Msgf("%v: outgoing frame successfully enqueued: %v", c, f)
 			return inFlight, nil
 		default:
@@ -625,10 +627,12 @@ func (c *CqlClientConnection) Close() (err error) {
 		c.events = nil
 		close(outgoing)
 		close(events)
+		verifPoint("conn.chans.closed", 0, 0)
 		c.channelsLock.Unlock()
 		verifGate("conn.close.chans", 0)
 		c.inFlightHandler.close()
 		c.waitGroup.Wait()
+		verifPoint("conn.close.done", 0, 0)
 		if err != nil {
 			err = fmt.Errorf("%v: error closing: %w", c, err)
 		} else {
